@@ -1,22 +1,25 @@
 #!/bin/bash
-# usage: benign_sweep.sh [diff ...] — apply each behaviour-preserving variant of selftest/benign to a scratch
-# copy of /repo, check that it still compiles, and run EVERY property check on it: any alarm is a false alarm
-# of the machinery. Prints one line per (variant, check) that is not silent.
+# usage: benign_sweep.sh [diff ...] — apply each behaviour-preserving variant (default: selftest/benign) to a scratch
+# copy of /repo, check that it still compiles, and run EVERY property check on it (one load, `-property all`):
+# any alarm is a false alarm of the machinery. Prints one line per (variant, check) that is not silent.
 set -u
 VERIF="$(cd "$(dirname "$0")/.." && pwd)"
 export GOFLAGS=-mod=mod GOPROXY=off GOSUMDB=off GOTOOLCHAIN=local; unset GOWORK
+PAR="${SWEEP_PAR:-4}"
 files=("$@"); [ ${#files[@]} -eq 0 ] && files=("$VERIF"/selftest/benign/*.diff)
 run_one() {
-  d="$1"; n="$(basename "$d" .diff)"
-  S="$(mktemp -d /tmp/benign.XXXXXX)"
+  d="$1"; n="$(basename "$(dirname "$d")")/$(basename "$d" .diff)"
+  S="$(mktemp -d /tmp/bsweep.XXXXXX)"
   rsync -a --exclude .git /repo/ "$S/repo/"
   if ! (cd "$S/repo" && patch -p1 -s --no-backup-if-mismatch < "$d" >/dev/null 2>&1); then echo "benign $n: SKIPPED (does not apply)"; rm -rf "$S"; return; fi
   if ! (cd "$S/repo" && go build ./... >/dev/null 2>&1); then echo "benign $n: DOES NOT COMPILE"; rm -rf "$S"; return; fi
   mkdir -p "$S/verif/evidence"; cp "$VERIF/known_findings.json" "$S/verif/"
+  out="$("$VERIF/bin/tsscheck" -property all -tier quick -repo "$S/repo" -verif "$S/verif" 2>&1)"
   bad=0
-  for q in C01 C02 C03 C04 C05 C06 C07 C08 C09 C10 C11 C12 C13 C14 C15 C16 C17 C18 C19 C20; do
-    out="$("$VERIF/bin/tsscheck" -property "$q" -tier quick -repo "$S/repo" -verif "$S/verif" 2>&1)"; rc=$?
-    if [ $rc -ne 0 ]; then bad=1; echo "FALSE-ALARM benign/$n $q: $(echo "$out" | grep -E '^\s+(VIOLATED|UNDECIDED)' | head -3 | cut -c1-300 | tr '\n' ' ')"; fi
+  if ! echo "$out" | grep -q '^SWEEP C20'; then bad=1; echo "FALSE-ALARM benign/$n INFRA: $(echo "$out" | tail -3 | tr '\n' ' ' | cut -c1-300)"; fi
+  for q in $(echo "$out" | awk '/^SWEEP / && $3!="rc=0" {print $2}'); do
+    bad=1
+    echo "FALSE-ALARM benign/$n $q: $(echo "$out" | awk -v q="$q" '/^  (VIOLATED|UNDECIDED)/{buf=buf $0 "\n"} /^SWEEP /{ if ($2==q) printf "%s", buf; buf="" }' | head -3 | cut -c1-300 | tr '\n' ' ')"
   done
   [ $bad = 0 ] && echo "benign $n: silent under all 20 checks"
   rm -rf "$S"
@@ -24,6 +27,6 @@ run_one() {
 pids=()
 for d in "${files[@]}"; do
   run_one "$d" & pids+=($!)
-  if [ ${#pids[@]} -ge 6 ]; then wait "${pids[0]}"; pids=("${pids[@]:1}"); fi
+  if [ ${#pids[@]} -ge "$PAR" ]; then wait "${pids[0]}"; pids=("${pids[@]:1}"); fi
 done
 wait
